@@ -227,6 +227,9 @@ class FunctionDecoratorManager(DecoratorManager):
         def on_func_var_deleted():
             if self.status is DecoratorManagerStatus.RUNNING:
                 self.hass.async_create_task(self.stop())
+            elif self.status is DecoratorManagerStatus.VALIDATED:
+                # the function went away before its global context was started: never start its triggers
+                self.update_status(DecoratorManagerStatus.STOPPED)
 
         weakref.finalize(eval_func_var, on_func_var_deleted)
 
